@@ -506,6 +506,8 @@ fn replace_blob(bytes: &[u8], lenf: &Field, content: &[u8]) -> Vec<u8> {
 
 /// number of coordinated edit kinds
 pub const COORDINATED_KINDS: usize = 9;
+/// index of "FRI remainder of another length" among the coordinated kinds (the `_` arm below)
+pub const REMAINDER_KIND: usize = 7;
 
 /// The `variant`-th flavour of coordinated edit `kind`; None when it does not apply to this proof.
 pub fn coordinated_fault(bytes: &[u8], lay: &Layout, kind: usize, variant: usize) -> Option<(String, Vec<u8>)> {
@@ -710,7 +712,7 @@ pub fn coordinated_fault(bytes: &[u8], lay: &Layout, kind: usize, variant: usize
             let cur = get(bytes, lenf.off, 2) as usize;
             let start = lenf.off + 2;
             let mut content = bytes[start..start + cur].to_vec();
-            match variant % 3 {
+            match variant % 5 {
                 0 => {
                     let c = content.clone();
                     content.extend_from_slice(&c);
@@ -721,7 +723,18 @@ pub fn coordinated_fault(bytes: &[u8], lay: &Layout, kind: usize, variant: usize
                     }
                     content.truncate(cur / 2);
                 },
-                _ => content.clear(),
+                2 => content.clear(),
+                3 => {
+                    // the same polynomial in a longer form: zero coefficients appended
+                    content.resize(2 * cur, 0);
+                },
+                _ => {
+                    // the shortest power-of-two form: only the first coefficient
+                    if cur < 2 * esz {
+                        return None;
+                    }
+                    content.truncate(esz);
+                },
             }
             if content.len() > 65000 {
                 return None;
